@@ -12,23 +12,25 @@ use crate::exch_run::{replay_exchange, run_exchanges};
 use crate::gen::*;
 use crate::refmodel::framing::{decide, Framing};
 
-pub const RULE: &str = "full product: request version {1.0,1.1} x request Connection {absent, close, keep-alive, keep-alive+close as two fields} x request kind {GET, HEAD, POST with Content-Length, POST with Expect} x Expect outcome {100 received / late 100 after give-up, silent server + give-up, refused bare, refused with fields} x response version {1.0,1.1} x status {200,204,304,404,302 with Location} x response framing {none, Content-Length: 0, Content-Length: 3, chunked} x response Connection {absent, close, keep-alive, keep-alive+close}; every cell explored through the real flow under all mixtures of whole-message and 1-byte arrivals (quick: whole-message arrivals + give-up at every point), verdict read in the Redirect state and in Cleanup; part b: every prefix, cut after the complete Location line, of 3xx heads with Connection / framing fields before and after the Location line (3 methods x 3 statuses x 7 x 4 field sets x every cut): whenever the library accepts such a prefix as a complete response (known finding KF1 of C05) the exchange must end must-close. distinct = distinct (cell, final observation) pairs";
+pub const RULE: &str = "full product: request version {1.0,1.1} x request Connection {absent, close, keep-alive, keep-alive+close as two fields} x request kind {GET, HEAD, POST with Content-Length, POST with Expect, GET carrying an Expect header} x Expect outcome {100 received / late 100 after give-up, silent server + give-up, refused bare, refused with fields} x response version {1.0,1.1} x status {200,204,304,404,302 with Location} x response framing {none, Content-Length: 0, Content-Length: 3, chunked} x response Connection {absent, close, keep-alive, keep-alive+close}; every cell explored through the real flow under all mixtures of whole-message and 1-byte arrivals (quick: whole-message arrivals + give-up at every point), verdict read in the Redirect state and in Cleanup; part b: every prefix, cut after the complete Location line, of 3xx heads with Connection / framing fields before and after the Location line (3 methods x 3 statuses x 7 x 4 field sets x every cut): whenever the library accepts such a prefix as a complete response (known finding KF1 of C05) the exchange must end must-close. distinct = distinct (cell, final observation) pairs";
 
 pub fn build(tier: Tier) -> Vec<Arc<ExchCfg>> {
     let mut out = Vec::new();
     let conns: [&[&str]; 4] = [&[], &["close"], &["keep-alive"], &["keep-alive", "close"]];
     for rver in ["1.0", "1.1"] {
         for rconn in conns {
-            for kind in ["GET", "HEAD", "POST", "POST-expect"] {
+            for kind in ["GET", "HEAD", "POST", "POST-expect", "GET-expect"] {
                 let (method, expect) = match kind {
                     "POST-expect" => ("POST", true),
+                    // an Expect header on a request without body (nothing is awaited)
+                    "GET-expect" => ("GET", true),
                     k => (k, false),
                 };
                 let mut rs = req(method, rver, if method == "POST" { ReqFraming::Length(3) } else { ReqFraming::Default }, 3, expect, false, false);
                 for c in rconn {
                     rs.cfg = rs.cfg.orig("connection", c);
                 }
-                let outcomes: &[&str] = if expect { &["100", "silent", "refused-bare", "refused-fields"] } else { &["na"] };
+                let outcomes: &[&str] = if expect && method == "POST" { &["100", "silent", "refused-bare", "refused-fields"] } else { &["na"] };
                 for oc in outcomes {
                     for sver in ["1.0", "1.1"] {
                         for status in [200u16, 204, 304, 404, 302] {
